@@ -117,6 +117,7 @@ REWRITES = {
     "error_tokens_walk": ("re", r"(?s)info\.slice\(tokens\)\s*\.iter\(\)\s*\.filter_map\(\|token\| \{.*\}\)\s*\.collect::<Vec<SemanticToken>>\(\)\s*\}\s*$", "error_tokens_walk(info.slice(tokens), text, previous_token_pos)\n}", "R13 for a closure: the per-token closure of collect_error and the iterator chain around it are replaced by a call of an external function"),
     "super_get_local_table": ("re", r"\bsuper::get_local_table\b", "get_local_table", "single file: the module path is dropped"),
     "fold_changes": ("re", r"(?s)changes\.into_iter\(\)\.fold\(self, \|mut acc, change\| \{.*?\n        \}\)", "fold_changes(self, changes)", "R13 for a closure: the fold over the text changes, whose step is verified separately as the lifted `update_step`, is replaced by a call of an external function (the steps applied in order)"),
+    "map_or_else_some": ("map_or_else_some", "", "", "Option::map_or_else(d, Some) inlined as its std definition `match self { Some(v) => Some(v), None => d() }`"),
     "box_as_ref": ("re", r"\bboxed\.as_ref\(\)", r"&**boxed", "Box::as_ref on &Box<T> replaced by its std body `&**self` (no vstd spec; generic over the allocator)"),
     "self_name_clone_to_callee": ("re", r"self\.name\.value\.clone\(\)", r"string_clone(&callee.value)", "captured field path `self.name` of the lifted loop body becomes the parameter `callee` (R6); String::clone -> shim"),
     "ref_ne": ("re", r"\barg_type != param_type\b", r"!datatype_eq(arg_type, param_type)", "`!=` on two `&DataType` (PartialEq for references) written as the derived comparison it resolves to"),
@@ -491,6 +492,27 @@ def apply_rewrite(name, text):
             out = out[:rs] + new + out[k:]
             pos = rs + 6
         return out, {"rewrite": name, "why": why, "sites": sites}
+    if spec[0] == "map_or_else_some":
+        why = spec[3]
+        m = re.search(r"\.\s*map_or_else\s*\(", text)
+        if not m:
+            return text, {"rewrite": name, "why": why, "sites": []}
+        dot = m.start()
+        rs = _postfix_chain_start(text, dot)
+        recv = text[rs:dot].strip()
+        depth, k = 1, m.end()
+        while depth:
+            if text[k] in "([{":
+                depth += 1
+            elif text[k] in ")]}":
+                depth -= 1
+            k += 1
+        args = text[m.end():k - 1].strip().rstrip(",").strip()
+        am = re.match(r"(?s)\|\|\s*(\{.*\})\s*,\s*Some$", args)
+        if not am:
+            return text, {"rewrite": name, "why": why, "sites": []}
+        new = f"(match {recv} {{ Some(v_) => Some(v_), None => {am.group(1)} }})"
+        return text[:rs] + new + text[k:], {"rewrite": name, "why": why, "sites": [{"from": text[rs:k][:120], "to": new[:120]}]}
     raise LostAnchor(f"rewrite kind {spec[0]}")
 
 
